@@ -1278,6 +1278,8 @@ class Executor(object):
         for (s3, val) in con.result(self, s_ok, env):
             ens = []
             for (label, t) in con.ensures(self, st, s3, env, val):
+                if t is None or type(t).__name__ == "_Shape":
+                    continue        # a clause that cannot be stated over this skeleton: nothing is assumed from it
                 t = tm.lift(t)
                 if tm.is_const(t) and not tm.cval(t):
                     # the skeleton built by result() contradicts the contract's own postcondition: a defect of
